@@ -25,6 +25,9 @@ def build():
         if tag == "F-PARKED":
             build_parked(e)
             continue
+        if tag == "F-EARLY" and prop == "C18":
+            build_early_c18(e)
+            continue
         if tag not in hazards.FAMILIES or tag == "OWN-ITER":
             continue
         found = None
@@ -69,6 +72,19 @@ def build_c16(e):
     with open(os.path.join(VERIF, e["witness"]), "w") as f:
         json.dump(payload, f, indent=1, sort_keys=True)
     print("F-C16 C16 ->", e["witness"])
+
+
+def build_early_c18(e):
+    from . import ctl_engine
+    from .ctlsim import CtlSim
+    run = ctl_engine.c18_killed_session_run(random.Random(0))
+    sim = CtlSim(copy.deepcopy(run), {"C18"}).execute()
+    v = next(v for v in sim.viol if v["oracle"] == "session_exception" and v.get("signature") == "F-EARLY")
+    payload = {"property": "C18", "oracle": v["oracle"], "signature": "F-EARLY", "msg": v["msg"], "run": run,
+               "digest": sim.digest(), "engine": "ctl", "finding": "F-EARLY"}
+    with open(os.path.join(VERIF, e["witness"]), "w") as f:
+        json.dump(payload, f, indent=1, sort_keys=True)
+    print("F-EARLY C18 ->", e["witness"])
 
 
 def build_parked(e):
